@@ -3,6 +3,7 @@ import json
 from fractions import Fraction
 
 import cfgmodel as M
+import translate_cfg as TC
 import transforms as TR
 from cfgcheck import finitely_ambiguous, decode_grammar, run_jobs
 from common import CoqError, coq_eval_bools
@@ -137,6 +138,11 @@ def run(ctx):
     ctx.cov["rule"] = ("random grammars stressing useless symbols, non-generating start symbols, nullable and unary cycles x every transformation/option; each result is read back and the postcondition "
                        "(in_cnf, no nullary except start, no unary, no unary cycle, arity<=2, start not on rhs, terminals separated, all symbols useful) is decided by the Coq checkers, whose specifications are proved; "
                        "the library's in_cnf()/has_unary_cycle() are compared with the checkers on every output; non-trivial = non-empty output grammar")
+    try:
+        ctx.cov["translators"].append(TC.main())   # CFG._trim / separate_start are regenerated (bridged to the models in C06)
+        ctx.obligation("translate_cfg", True)
+    except TC.Refuse as e:
+        ctx.obligation("translate_cfg", False, f"translator refused: {e}")
     ok, out = ctx.build(["proofs/TrimProofs.vo", "proofs/ShapeProofs.vo", "proofs/UsefulProofs.vo", "model/Useful.vo", "model/Cky.vo"])
     if ok:
         ctx.prove("props/C07.v")
